@@ -787,3 +787,217 @@ pub fn gen_mtu(seed: u64, tier: &Tier, shard: usize, nshards: usize, emit: &mut 
         }
     }
 }
+
+// ------------------------------------------------------------------------------------------------
+// fd suite: heartbeat arrival histories against the failure detector, through `report_heartbeat`
+
+fn fd_cfg(rng: &mut Rng) -> (String, u64, u64, u64, u64) {
+    // theta = num/den with den a power of two (exact in f64)
+    let (num, den) = [(8u64, 1u64), (1, 2), (3, 2), (16, 1), (5, 1), (9, 4)][rng.below(6) as usize];
+    let win = [1u64, 2, 3, 5, 10, 1000][rng.below(6) as usize];
+    let scale = [1u64, 10, 100][rng.below(3) as usize];
+    let max_iv = 512 * scale / 10 + rng.below(50) * scale; // around 0.1..10 s
+    let max_iv = max_iv.max(4);
+    let init_iv = (max_iv / [1u64, 2, 4][rng.below(3) as usize]).max(1);
+    let dead_grace = 2 * (max_iv * 4 + rng.below(100) * 2);
+    (format!("(fd {num} {den} {win} {max_iv} {init_iv} {dead_grace})"), max_iv, init_iv, dead_grace, num * 1000 / den)
+}
+
+pub fn gen_fd(seed: u64, tier: &Tier, shard: usize, nshards: usize, emit: &mut dyn FnMut(String)) {
+    let ncases = if tier.thorough { 12_000 } else { 800 };
+    for i in 0..ncases {
+        if i % nshards != shard {
+            continue;
+        }
+        let mut rng = Rng::new(seed ^ ((i as u64) << 16) ^ 0xFD);
+        emit(format!("(case fd-{i})"));
+        let (cfg, max_iv, init_iv, dead_grace, theta_milli) = fd_cfg(&mut rng);
+        emit(new_cmd(0, &node_id(1), "c", 100, &cfg, "(pred none)", &[]));
+        let members = [node_id(2), node_id(3)];
+        let mut hb = [rng.range(1, 5), rng.range(1, 5)];
+        let steps = if tier.thorough && rng.chance(1, 20) { rng.range(200, 2000) } else { rng.range(3, 60) };
+        // a "regime" for the arrivals: steady, bursty, slow, dying
+        let regime = rng.below(4);
+        let base = rng.range(1, max_iv.max(2));
+        for _ in 0..steps {
+            let m = rng.below(2) as usize;
+            match rng.below(10) {
+                0..=5 => {
+                    // a heartbeat report: mostly fresh, sometimes equal / lower / far ahead
+                    let v = match rng.below(8) {
+                        0 => hb[m],
+                        1 => hb[m].saturating_sub(rng.range(1, 3)),
+                        2 => hb[m] + rng.range(2, 50),
+                        _ => hb[m] + 1,
+                    };
+                    if v > hb[m] {
+                        hb[m] = v;
+                    }
+                    emit(plist("hb", ["0".to_string(), p_id(&members[m]), v.to_string()]));
+                }
+                6 | 7 => {
+                    let dt = match regime {
+                        0 => base,
+                        1 => if rng.chance(1, 4) { max_iv + rng.range(0, 2) } else { rng.below(3) },
+                        2 => rng.range(max_iv.saturating_sub(1), max_iv + 1),
+                        _ => rng.range(0, 2 * base),
+                    };
+                    emit(format!("(advance {dt})"));
+                }
+                8 => {
+                    // long silence relative to the threshold / the grace periods
+                    let dt = match rng.below(5) {
+                        0 => theta_milli * max_iv.max(init_iv) / 1000 + rng.range(0, 2),
+                        1 => dead_grace / 2 + rng.range(0, 2),
+                        2 => dead_grace + rng.range(0, 1),
+                        3 => dead_grace / 2 - 1,
+                        _ => rng.range(1, 4 * max_iv),
+                    };
+                    emit(format!("(advance {dt})"));
+                }
+                _ => emit("(live 0)".to_string()),
+            }
+        }
+        emit("(live 0)".to_string());
+    }
+}
+
+// ------------------------------------------------------------------------------------------------
+// cluster suite: several real nodes, arbitrary schedules
+
+pub fn gen_cluster(seed: u64, tier: &Tier, shard: usize, nshards: usize, emit: &mut dyn FnMut(String)) {
+    let ncases = if tier.thorough { 6_000 } else { 320 };
+    for i in 0..ncases {
+        if i % nshards != shard {
+            continue;
+        }
+        let mut rng = Rng::new(seed ^ ((i as u64) << 16) ^ 0xC1);
+        emit(format!("(case cluster-{i})"));
+        let n = rng.range(2, 5);
+        let grace = 40u64; // tombstone grace (ticks)
+        let dead_grace = 400u64;
+        let fd = format!("(fd 8 1 1000 100 50 {dead_grace})");
+        let two_clusters = rng.chance(1, 6);
+        let pred = match rng.below(4) {
+            0 => "(pred haskey x7265616479)".to_string(), // "ready"
+            1 => "(pred nokey x647261696e)".to_string(),  // "drain"
+            _ => "(pred none)".to_string(),
+        };
+        for k in 0..n {
+            let cluster = if two_clusters && k % 2 == 1 { ["c2", "", "C", "c"][rng.below(3) as usize] } else { "c" };
+            emit(new_cmd(k, &node_id(k as u16 + 1), cluster, grace, &fd, &pred, &[("boot", "1")]));
+        }
+        let keys = ["a", "b", "ready", "drain", "a/x", ""];
+        let steps = if tier.thorough { rng.range(20, 160) } else { rng.range(10, 70) };
+        let partitioned = rng.chance(1, 3);
+        for step in 0..steps {
+            let a = rng.below(n);
+            let b = (a + 1 + rng.below(n - 1)) % n;
+            let k = hex(keys[rng.below(keys.len() as u64) as usize].as_bytes());
+            match rng.below(24) {
+                0..=2 => emit(format!("(set {a} {k} {})", hex(["1", "2", "long-value-........................"][rng.below(3) as usize].as_bytes()))),
+                3 => emit(format!("(setttl {a} {k} {})", hex(b"t"))),
+                4 | 5 => emit(format!("(del {a} {k})")),
+                6 => emit(format!("(delttl {a} {k})")),
+                7..=11 => {
+                    // partition: node 0 isolated for the first half of the run
+                    if partitioned && step < steps / 2 && (a == 0 || b == 0) {
+                        emit(format!("(selfhb {a})"));
+                    } else {
+                        emit(format!("(initiate {a} {b})"));
+                    }
+                }
+                12..=17 => emit(format!("(deliver {})", rng.below(1 << 20))),
+                18 => emit(format!("(gc {a})")),
+                19 | 20 => emit(format!("(live {a})")),
+                21 => emit(format!("(advance {})", [1u64, 5, 20, grace - 1, grace, grace + 1, 60][rng.below(7) as usize])),
+                22 => emit(format!("(advance {})", [dead_grace / 2 - 1, dead_grace / 2, dead_grace / 2 + 1, dead_grace, dead_grace + 1, 150, 801][rng.below(7) as usize])),
+                _ => {
+                    // full handshake a -> b with nothing lost
+                    emit(format!("(handshake {a} {b})"));
+                }
+            }
+        }
+        // fair suffix: loss-free handshakes between every pair, a few rounds (C01)
+        if !two_clusters {
+            for _ in 0..(n + 3) {
+                for a in 0..n {
+                    for b in 0..n {
+                        if a != b {
+                            emit(format!("(handshake {a} {b})"));
+                        }
+                    }
+                }
+            }
+            for a in 0..n {
+                emit(format!("(dump {a})"));
+            }
+            emit("(converged)".to_string());
+        }
+    }
+}
+
+// ------------------------------------------------------------------------------------------------
+// catchup suite: reset_node_state_if_update on every shape of existing copy
+
+pub fn gen_catchup(seed: u64, tier: &Tier, shard: usize, nshards: usize, emit: &mut dyn FnMut(String)) {
+    let vmax: u64 = if tier.thorough { 6 } else { 4 };
+    let x = node_id(50);
+    let mut case_no = 0usize;
+    // existing copy shapes: absent, empty, mid-reset (gc > max), normal; gc-memory entry or not
+    for shape in 0..5u64 {
+        for cgc in 0..=vmax {
+            for cmax in 0..=vmax {
+                case_no += 1;
+                if case_no % nshards != shard {
+                    continue;
+                }
+                let mut rng = Rng::new(seed ^ ((case_no as u64) << 20) ^ 0xCA7);
+                emit(format!("(case catchup-{shape}-{cgc}-{cmax})"));
+                emit(new_cmd(0, &node_id(1), "c", 40, "(fd 8 1 1000 100 50 400)", "(pred none)", &[]));
+                let fills = sender_fills(cgc, cmax, &mut rng);
+                for sgc in 0..=vmax {
+                    for smax in 0..=vmax {
+                        // prepare the existing copy
+                        let x = if shape == 0 { node_id(1000 + (sgc * 10 + smax) as u16) } else { x.clone() };
+                        match shape {
+                            0 => {
+                                // absent and never seen: a fresh member id per iteration
+                            }
+                            1 => {
+                                // absent but remembered as garbage collected
+                                let copy = sorted_copy(9, cgc, cmax, vec![]);
+                                emit(plist("setcopy", ["0".to_string(), p_id(&x), p_pcopy(&copy)]));
+                                emit(plist("rmcopy", ["0".to_string(), p_id(&x), "1".to_string()]));
+                            }
+                            _ => {
+                                let fill = fills[((shape - 2) as usize + (sgc as usize)) % fills.len()].clone();
+                                let copy = sorted_copy(9, cgc, cmax, fill);
+                                emit(plist("setcopy", ["0".to_string(), p_id(&x), p_pcopy(&copy)]));
+                            }
+                        }
+                        // supplied state: consistent or not with (smax, sgc)
+                        let mut kvs = Vec::new();
+                        let mut used = Vec::new();
+                        for key in ["a", "b", "k1", "k2", "zz"] {
+                            if rng.chance(1, 2) {
+                                continue;
+                            }
+                            let v = rng.range(1, vmax + 2);
+                            if used.contains(&v) {
+                                continue;
+                            }
+                            used.push(v);
+                            let st = ["S", "D", "T"][rng.below(3) as usize];
+                            kvs.push(plist("kv", [hex(key.as_bytes()), hex(if st == "D" { b"" } else { b"val" }), v.to_string(), st.to_string(), "0".to_string()]));
+                        }
+                        emit(plist("catchup", ["0".to_string(), p_id(&x), plist("", kvs), smax.to_string(), sgc.to_string()]));
+                        if rng.chance(1, 4) {
+                            emit("(live 0)".to_string());
+                        }
+                    }
+                }
+            }
+        }
+    }
+}
